@@ -3,6 +3,8 @@ CONSTANTS
   N = 3
   FlushEach = TRUE
   ReadAhead = TRUE
+  Shape = "bidi"
+  FlushShapes = {"bidi", "cstream"}
   Buffered = FALSE
 INVARIANT TypeOK
 INVARIANT NoHiddenBuffering
